@@ -152,6 +152,12 @@ def gen_cases(ctx):
         fn, t = [(f, t) for f, t in decl if t["name"] in p["elig_hint"]][0]
         other = [f["name"] for f in p["files"] if f["name"] != fn]
         add(p, ["-file=" + rng.choice(other), "-type=" + t["name"]], ["file+named-notin"])
+        # ---- file names ending with the -file value ----
+        for selx in ([], ["-sep"], ["-type=*"]):
+            p = g.package(cmd, n_elig=4, nfiles=3, suffix_names=True)
+            add(p, ["-file=item.go"] + selx, ["file", "suffix-names"])
+        p = g.package(cmd, n_elig=4, nfiles=4, suffix_names=True)
+        add(p, ["-file=" + rng.choice(["item.go", "lineitem.go", "item.go.go"])], ["file", "suffix-names"])
         # ---- -type=* ----
         for where in ["exact", "gotool", "gorun", "other-file", "two", "absent", "extra-flags", "prefix-only"]:
             p = g.package(cmd, n_elig=rng.choice([1, 2, 3]))
@@ -224,7 +230,7 @@ def gen_cases(ctx):
         if rng.random() < 0.12:
             extra.append(rng.choice(["tparam-other-file", "tparam-same-file", "tparam-of-type-other-file", "embedded-earlier",
                                      "field-earlier", "method-earlier", "ifaceembed-earlier", "otherpkg-earlier"]))
-        p = g.package(cmd, extra=tuple(extra), colocate=rng.random() < 0.2)
+        p = g.package(cmd, extra=tuple(extra), colocate=rng.random() < 0.2, suffix_names=rng.random() < 0.15)
         el = p["elig_hint"]
         decl = declared_names(p)
         allnames = [t["name"] for _, t in decl]
